@@ -1,23 +1,27 @@
 //! C02: concurrent clients on one node see a linearizable per-key history.
 //!
-//! One case = one concurrent run of the real `ShardedActorState` on a MULTI-THREAD tokio
-//! runtime: M client tasks, R rounds separated by a barrier.  In a round every client issues a
-//! few commands on a small shared key set through every kind of entry point (`execute`,
-//! `fast_get/set`, `pooled_fast_get/set`, `fast_batch_get/set_pipeline`, EVAL scripts), writing
-//! unique values (a read identifies its write), INCR / APPEND as read-modify-writes, DEL.
-//! Invocation and response are stamped with a global atomic counter (`fetch_add` before the
-//! call, `fetch_add` after the reply).  After the barrier every key is read once; that read is
-//! the last operation of the window and its value is the initial state of the next window.
-//! Per round and key the window (<= 15 operations) is printed as a Coq term and judged by
-//! `lin_check` (Corr/C02.v); the same window is judged here by an independent memoised search
-//! (the direct oracle on the implementation).  A window that is not linearizable is a C02
-//! violation; the full window is stored in the violation detail, and `--only i` re-judges a
-//! recorded window found under replays/C02 (thread scheduling is not derived from the seed:
-//! histories are explored, not replayable bit for bit; the scripts of case i are).
+//! One case = one concurrent run of the real `ShardedActorState` on a tokio runtime (several
+//! workers, or one worker): M client tasks, R rounds separated by a barrier.  In a round every
+//! client issues a few commands on a small shared key set through every kind of entry point
+//! (`execute`, `fast_get/set`, `pooled_fast_get/set`, `fast_batch_get/set_pipeline`, EVAL),
+//! over string, list, set and hash keys: GET, SET [NX|XX] [GET], SETNX, GETSET, GETDEL,
+//! INCR/DECR/INCRBY/DECRBY, APPEND, SETRANGE, DEL, EXISTS, LPUSH/RPUSH/LPOP/RPOP/LRANGE,
+//! SADD/SREM/SMEMBERS, HSET/HDEL/HGETALL.  Invocation and response are stamped with a global
+//! atomic counter.  After the barrier every key is read in full; that read is the last
+//! operation of the window and the initial state of the next window.  Per round and key the
+//! window is printed as a Coq term and judged by `lin_check` (Corr/C02.v); the same window is
+//! judged here by an independent memoised search (the direct oracle on the implementation).
+//! Case classes: ordinary mixes; first-writer races (all clients release the same conditional
+//! write on one key at the same instant, interleaved with DEL); saboteurs that abandon requests
+//! mid-flight (pending operations) followed by response-pool cycling; slow shards (a busy-loop
+//! Lua script occupies the shard for 0.3-6 s while other clients queue non-idempotent commands).
+//! Thread scheduling is not derived from the seed: histories are explored, not replayable bit
+//! for bit; the scripts of case i are.  A failing window is stored in full in the replay.
 use bytes::Bytes;
 use rand::Rng as _;
 use redis_sim::production::ShardedActorState;
 use redis_sim::redis::{Command, RespValue, SDS};
+use serde::{Deserialize, Serialize};
 use serde_json::{json, Value};
 use std::collections::{BTreeMap, HashSet};
 use std::sync::atomic::{AtomicU64, Ordering};
@@ -25,9 +29,8 @@ use std::sync::Arc;
 use vharness::util::*;
 
 const HEADER: &str = "From RV Require Import Corr.C02.\nLocal Open Scope string_scope.\nLocal Open Scope list_scope.\nLocal Open Scope nat_scope.";
-/// Key names: plain ones, Redis-Cluster hash-tag shapes (`{tag}`, text around a tag, two names
-/// sharing a tag, empty tag, unbalanced braces), multi-byte UTF-8, and names of 7/8/9/16/17
-/// bytes (SipHash block boundaries).  Every entry path must send a name to the same shard.
+/// Key names: plain ones, Redis-Cluster hash-tag shapes, multi-byte UTF-8, and names of
+/// 7/8/9/16/17 bytes (SipHash block boundaries).  Every entry path must agree on the shard.
 const KEYPOOL: [&str; 28] = [
     "a", "b", "k1", "k2", "key:3", "user:7", "x", "zz",
     "{a}", "x{a}y", "{a}:b", "{a}:c", "{}", "{tenant-0}:counter", "{u1}:name", "pre{u1}", "{", "}{", "a{b", "{}{z}",
@@ -36,40 +39,107 @@ const KEYPOOL: [&str; 28] = [
 ];
 const JUNK_KEY: &str = "c02-junk";
 const PAD_KEY: &str = "c02-pad";
-/// GET then SET of one key inside one script: one atomic operation of two primitives.
 const SCRIPT_GETSET: &str = "local v = redis.call('GET', KEYS[1]); local s = redis.call('SET', KEYS[1], ARGV[1]); return {v or false, s}";
-/// INCR then GET inside one script.
 const SCRIPT_INCRGET: &str = "local n = redis.call('INCR', KEYS[1]); local v = redis.call('GET', KEYS[1]); return {n, v or false}";
+const SCRIPT_INCR: &str = "return redis.call('INCR', KEYS[1])";
+const BUSY: &str = "local n = tonumber(ARGV[1]); local x = 0; for i = 1, n do x = x + (i % 7) end; ";
 
 static CLOCK: AtomicU64 = AtomicU64::new(0);
 fn stamp() -> u64 {
     CLOCK.fetch_add(1, Ordering::SeqCst)
 }
 
-#[derive(Clone, Debug, PartialEq, Eq, Hash)]
+type B = Vec<u8>;
+#[derive(Clone, Debug, PartialEq, Eq, Hash, Serialize, Deserialize)]
+enum State {
+    None,
+    Str(B),
+    List(Vec<B>),
+    Set(Vec<B>),
+    Hash(Vec<(B, B)>),
+}
+#[derive(Clone, Copy, Debug, PartialEq, Eq)]
+enum Kind {
+    Str,
+    List,
+    Set,
+    Hash,
+}
+#[derive(Clone, Debug, PartialEq, Eq, Hash, Serialize, Deserialize)]
 enum Prim {
     Get,
-    Set(Vec<u8>),
-    Incr,
-    Append(Vec<u8>),
+    Set(B),
+    IncrBy(i64),
+    Append(B),
     Del,
+    SetNx(B),
+    SetOpt(B, bool, bool, bool), // value, NX, XX, GET
+    GetSet(B),
+    GetDel,
+    SetRange(usize, B),
+    Exists,
+    LPush(B),
+    RPush(B),
+    LPop,
+    RPop,
+    LRange,
+    SAdd(B),
+    SRem(B),
+    SMembers,
+    HSet(B, B),
+    HDel(B),
+    HGetAll,
 }
-#[derive(Clone, Debug, PartialEq, Eq)]
+#[derive(Clone, Debug, PartialEq, Eq, Serialize, Deserialize)]
 enum Rep {
-    Val(Option<Vec<u8>>),
+    Val(Option<B>),
     Ok,
     Int(i64),
     ErrNotInt,
     ErrOverflow,
+    WrongType,
+    Arr(Vec<B>),
     Other(String),
+}
+fn is_read(p: &Prim) -> bool {
+    matches!(p, Prim::Get | Prim::Exists | Prim::LRange | Prim::SMembers | Prim::HGetAll)
+}
+fn prim_name(p: &Prim) -> &'static str {
+    match p {
+        Prim::Get => "GET", Prim::Set(_) => "SET", Prim::IncrBy(1) => "INCR", Prim::IncrBy(-1) => "DECR",
+        Prim::IncrBy(z) if *z > 0 => "INCRBY", Prim::IncrBy(_) => "DECRBY", Prim::Append(_) => "APPEND", Prim::Del => "DEL",
+        Prim::SetNx(_) => "SETNX", Prim::SetOpt(_, true, _, _) => "SET-NX", Prim::SetOpt(_, _, true, _) => "SET-XX",
+        Prim::SetOpt(..) => "SET-GET", Prim::GetSet(_) => "GETSET", Prim::GetDel => "GETDEL", Prim::SetRange(..) => "SETRANGE",
+        Prim::Exists => "EXISTS", Prim::LPush(_) => "LPUSH", Prim::RPush(_) => "RPUSH", Prim::LPop => "LPOP", Prim::RPop => "RPOP",
+        Prim::LRange => "LRANGE", Prim::SAdd(_) => "SADD", Prim::SRem(_) => "SREM", Prim::SMembers => "SMEMBERS",
+        Prim::HSet(..) => "HSET", Prim::HDel(_) => "HDEL", Prim::HGetAll => "HGETALL",
+    }
 }
 fn prim_term(p: &Prim) -> String {
     match p {
         Prim::Get => "G".into(),
         Prim::Set(v) => format!("St {}", chex(v)),
-        Prim::Incr => "Ic".into(),
+        Prim::IncrBy(1) => "Ic".into(),
+        Prim::IncrBy(z) => format!("Ib ({})%Z", z),
         Prim::Append(v) => format!("Ap {}", chex(v)),
         Prim::Del => "Dl".into(),
+        Prim::SetNx(v) => format!("Nx {}", chex(v)),
+        Prim::SetOpt(v, nx, xx, get) => format!("So {} {} {} {}", chex(v), cbool(*nx), cbool(*xx), cbool(*get)),
+        Prim::GetSet(v) => format!("Gs {}", chex(v)),
+        Prim::GetDel => "Gd".into(),
+        Prim::SetRange(o, v) => format!("Sr {} {}", o, chex(v)),
+        Prim::Exists => "Ex".into(),
+        Prim::LPush(v) => format!("Lp {}", chex(v)),
+        Prim::RPush(v) => format!("Rp {}", chex(v)),
+        Prim::LPop => "Lo".into(),
+        Prim::RPop => "Ro".into(),
+        Prim::LRange => "Lr".into(),
+        Prim::SAdd(v) => format!("Sa {}", chex(v)),
+        Prim::SRem(v) => format!("Sm {}", chex(v)),
+        Prim::SMembers => "Ms".into(),
+        Prim::HSet(f, v) => format!("Hs {} {}", chex(f), chex(v)),
+        Prim::HDel(f) => format!("Hd {}", chex(f)),
+        Prim::HGetAll => "Ha".into(),
     }
 }
 fn rep_term(r: &Rep) -> String {
@@ -80,58 +150,60 @@ fn rep_term(r: &Rep) -> String {
         Rep::Int(n) => format!("Ni ({})%Z", n),
         Rep::ErrNotInt => "ENI".into(),
         Rep::ErrOverflow => "EOV".into(),
+        Rep::WrongType => "EWT".into(),
+        Rep::Arr(l) => format!("Ar {}", clist(l.iter(), |v| chex(v))),
         Rep::Other(s) => format!("EX {}", chex(s.as_bytes())),
     }
 }
-fn prim_json(p: &Prim) -> Value {
-    match p {
-        Prim::Get => json!({"op": "GET"}),
-        Prim::Set(v) => json!({"op": "SET", "v": hex(v)}),
-        Prim::Incr => json!({"op": "INCR"}),
-        Prim::Append(v) => json!({"op": "APPEND", "v": hex(v)}),
-        Prim::Del => json!({"op": "DEL"}),
+fn state_term(s: &State) -> String {
+    match s {
+        State::None => "I0".into(),
+        State::Str(v) => format!("(IS {})", chex(v)),
+        State::List(l) => format!("(IL {})", clist(l.iter(), |v| chex(v))),
+        State::Set(l) => format!("(IT {})", clist(l.iter(), |v| chex(v))),
+        State::Hash(l) => format!("(IH {})", clist(l.iter(), |(f, v)| format!("({}, {})", chex(f), chex(v)))),
     }
 }
-fn prim_of_json(v: &Value) -> Prim {
-    let h = |v: &Value| unhex(v["v"].as_str().unwrap_or(""));
-    match v["op"].as_str().unwrap_or("") {
-        "GET" => Prim::Get,
-        "SET" => Prim::Set(h(v)),
-        "INCR" => Prim::Incr,
-        "APPEND" => Prim::Append(h(v)),
-        _ => Prim::Del,
-    }
-}
-fn rep_json(r: &Rep) -> Value {
+fn bulk_list(r: &RespValue) -> Option<Vec<B>> {
     match r {
-        Rep::Val(None) => json!({"r": "nil"}),
-        Rep::Val(Some(v)) => json!({"r": "bulk", "v": hex(v)}),
-        Rep::Ok => json!({"r": "ok"}),
-        Rep::Int(n) => json!({"r": "int", "n": n}),
-        Rep::ErrNotInt => json!({"r": "err-not-int"}),
-        Rep::ErrOverflow => json!({"r": "err-overflow"}),
-        Rep::Other(s) => json!({"r": "other", "t": s}),
+        RespValue::Array(Some(a)) => a.iter().map(|x| match x { RespValue::BulkString(Some(b)) => Some(b.clone()), _ => None }).collect(),
+        _ => None,
     }
 }
-fn rep_of_json(v: &Value) -> Rep {
-    match v["r"].as_str().unwrap_or("") {
-        "nil" => Rep::Val(None),
-        "bulk" => Rep::Val(Some(unhex(v["v"].as_str().unwrap_or("")))),
-        "ok" => Rep::Ok,
-        "int" => Rep::Int(v["n"].as_i64().unwrap_or(0)),
-        "err-not-int" => Rep::ErrNotInt,
-        "err-overflow" => Rep::ErrOverflow,
-        _ => Rep::Other(v["t"].as_str().unwrap_or("").to_string()),
-    }
-}
-fn canon(r: &RespValue) -> Rep {
+/// Canonical form of a reply, given the command it answers (unordered arrays are sorted).
+fn canon(p: &Prim, r: &RespValue) -> Rep {
     match r {
         RespValue::BulkString(v) => Rep::Val(v.clone()),
         RespValue::SimpleString(s) if s.as_ref() == "OK" => Rep::Ok,
         RespValue::Integer(n) => Rep::Int(*n),
         RespValue::Error(e) if e.as_ref() == "ERR value is not an integer or out of range" => Rep::ErrNotInt,
         RespValue::Error(e) if e.as_ref() == "ERR increment or decrement would overflow" => Rep::ErrOverflow,
+        RespValue::Error(e) if e.starts_with("WRONGTYPE") => Rep::WrongType,
+        RespValue::Array(_) => match (p, bulk_list(r)) {
+            (Prim::LRange, Some(l)) => Rep::Arr(l),
+            (Prim::SMembers, Some(mut l)) => { l.sort(); Rep::Arr(l) }
+            (Prim::HGetAll, Some(l)) if l.len() % 2 == 0 => {
+                let mut ps: Vec<(B, B)> = l.chunks(2).map(|c| (c[0].clone(), c[1].clone())).collect();
+                ps.sort();
+                Rep::Arr(ps.into_iter().flat_map(|(f, v)| [f, v]).collect())
+            }
+            _ => Rep::Other(format!("{:?}", r)),
+        },
         other => Rep::Other(format!("{:?}", other)),
+    }
+}
+/// What a command can answer at all.  Anything else is a reply that belongs to another request.
+fn shape_ok(p: &Prim, r: &Rep) -> bool {
+    let wt = matches!(r, Rep::WrongType);
+    match p {
+        Prim::Get | Prim::GetSet(_) | Prim::GetDel | Prim::LPop | Prim::RPop => wt || matches!(r, Rep::Val(_)),
+        Prim::Set(_) => matches!(r, Rep::Ok),
+        Prim::SetOpt(_, _, _, get) => matches!(r, Rep::Val(_)) || (!*get && matches!(r, Rep::Ok)) || (*get && wt),
+        Prim::IncrBy(_) => wt || matches!(r, Rep::Int(_) | Rep::ErrNotInt | Rep::ErrOverflow),
+        Prim::Append(_) | Prim::SetRange(..) | Prim::LPush(_) | Prim::RPush(_) => wt || matches!(r, Rep::Int(_)),
+        Prim::Del | Prim::Exists | Prim::SetNx(_) => matches!(r, Rep::Int(0) | Rep::Int(1)),
+        Prim::SAdd(_) | Prim::SRem(_) | Prim::HSet(..) | Prim::HDel(_) => wt || matches!(r, Rep::Int(0) | Rep::Int(1)),
+        Prim::LRange | Prim::SMembers | Prim::HGetAll => wt || matches!(r, Rep::Arr(_)),
     }
 }
 
@@ -139,31 +211,98 @@ fn canon(r: &RespValue) -> Rep {
 fn parse_i64(b: &[u8]) -> Option<i64> {
     std::str::from_utf8(b).ok()?.parse::<i64>().ok()
 }
-fn apply(st: &Option<Vec<u8>>, p: &Prim) -> (Option<Vec<u8>>, Rep) {
+fn nonempty_list(l: Vec<B>) -> State { if l.is_empty() { State::None } else { State::List(l) } }
+fn apply(st: &State, p: &Prim) -> (State, Rep) {
+    use State as S;
+    let present = !matches!(st, S::None);
+    let wt = || (st.clone(), Rep::WrongType);
     match p {
-        Prim::Get => (st.clone(), Rep::Val(st.clone())),
-        Prim::Set(v) => (Some(v.clone()), Rep::Ok),
-        Prim::Incr => match st {
-            None => (Some(b"1".to_vec()), Rep::Int(1)),
-            Some(b) => match parse_i64(b) {
+        Prim::Get => match st { S::None => (S::None, Rep::Val(None)), S::Str(b) => (st.clone(), Rep::Val(Some(b.clone()))), _ => wt() },
+        Prim::Set(v) => (S::Str(v.clone()), Rep::Ok),
+        Prim::IncrBy(z) => match st {
+            S::None => (S::Str(z.to_string().into_bytes()), Rep::Int(*z)),
+            S::Str(b) => match parse_i64(b) {
                 None => (st.clone(), Rep::ErrNotInt),
-                Some(n) => match n.checked_add(1) {
+                Some(n) => match n.checked_add(*z) {
                     None => (st.clone(), Rep::ErrOverflow),
-                    Some(m) => (Some(m.to_string().into_bytes()), Rep::Int(m)),
+                    Some(m) => (S::Str(m.to_string().into_bytes()), Rep::Int(m)),
                 },
             },
+            _ => wt(),
         },
-        Prim::Append(v) => {
-            let mut b = st.clone().unwrap_or_default();
-            b.extend_from_slice(v);
-            let n = b.len() as i64;
-            (Some(b), Rep::Int(n))
+        Prim::Append(v) => match st {
+            S::None => (S::Str(v.clone()), Rep::Int(v.len() as i64)),
+            S::Str(b) => { let mut n = b.clone(); n.extend_from_slice(v); let l = n.len() as i64; (S::Str(n), Rep::Int(l)) }
+            _ => wt(),
+        },
+        Prim::Del => (S::None, Rep::Int(present as i64)),
+        Prim::SetNx(v) => if present { (st.clone(), Rep::Int(0)) } else { (S::Str(v.clone()), Rep::Int(1)) },
+        Prim::SetOpt(v, nx, xx, get) => {
+            let old = match st { S::Str(b) => Some(b.clone()), _ => None };
+            if *get && present && !matches!(st, S::Str(_)) { return wt(); }
+            if *nx && present { return (st.clone(), if *get { Rep::Val(old) } else { Rep::Val(None) }); }
+            if *xx && !present { return (st.clone(), Rep::Val(None)); }
+            (S::Str(v.clone()), if *get { Rep::Val(old) } else { Rep::Ok })
         }
-        Prim::Del => (None, Rep::Int(if st.is_some() { 1 } else { 0 })),
+        Prim::GetSet(v) => match st { S::None => (S::Str(v.clone()), Rep::Val(None)), S::Str(b) => (S::Str(v.clone()), Rep::Val(Some(b.clone()))), _ => wt() },
+        Prim::GetDel => match st { S::None => (S::None, Rep::Val(None)), S::Str(b) => (S::None, Rep::Val(Some(b.clone()))), _ => wt() },
+        Prim::SetRange(off, v) => {
+            let cur = match st { S::None => Vec::new(), S::Str(b) => b.clone(), _ => return wt() };
+            if v.is_empty() { return (st.clone(), Rep::Int(cur.len() as i64)); }
+            let mut b = cur;
+            let need = off + v.len();
+            if b.len() < need { b.resize(need, 0); }
+            b[*off..need].copy_from_slice(v);
+            let l = b.len() as i64;
+            (S::Str(b), Rep::Int(l))
+        }
+        Prim::Exists => (st.clone(), Rep::Int(present as i64)),
+        Prim::LPush(v) | Prim::RPush(v) => {
+            let mut l = match st { S::None => Vec::new(), S::List(l) => l.clone(), _ => return wt() };
+            if matches!(p, Prim::LPush(_)) { l.insert(0, v.clone()); } else { l.push(v.clone()); }
+            let n = l.len() as i64;
+            (S::List(l), Rep::Int(n))
+        }
+        Prim::LPop | Prim::RPop => {
+            let mut l = match st { S::None => return (S::None, Rep::Val(None)), S::List(l) => l.clone(), _ => return wt() };
+            if l.is_empty() { return (S::None, Rep::Val(None)); }
+            let x = if matches!(p, Prim::LPop) { l.remove(0) } else { l.pop().unwrap() };
+            (nonempty_list(l), Rep::Val(Some(x)))
+        }
+        Prim::LRange => match st { S::None => (S::None, Rep::Arr(vec![])), S::List(l) => (st.clone(), Rep::Arr(l.clone())), _ => wt() },
+        Prim::SAdd(v) => match st {
+            S::None => (S::Set(vec![v.clone()]), Rep::Int(1)),
+            S::Set(l) => if l.contains(v) { (st.clone(), Rep::Int(0)) } else { let mut n = l.clone(); n.push(v.clone()); (S::Set(n), Rep::Int(1)) },
+            _ => wt(),
+        },
+        Prim::SRem(v) => match st {
+            S::None => (S::None, Rep::Int(0)),
+            S::Set(l) => if l.contains(v) { let n: Vec<B> = l.iter().filter(|x| *x != v).cloned().collect(); (if n.is_empty() { S::None } else { S::Set(n) }, Rep::Int(1)) } else { (st.clone(), Rep::Int(0)) },
+            _ => wt(),
+        },
+        Prim::SMembers => match st { S::None => (S::None, Rep::Arr(vec![])), S::Set(l) => { let mut n = l.clone(); n.sort(); (st.clone(), Rep::Arr(n)) } _ => wt() },
+        Prim::HSet(f, v) => match st {
+            S::None => (S::Hash(vec![(f.clone(), v.clone())]), Rep::Int(1)),
+            S::Hash(l) => {
+                let mut n = l.clone();
+                if let Some(e) = n.iter_mut().find(|e| &e.0 == f) { e.1 = v.clone(); (S::Hash(n), Rep::Int(0)) } else { n.push((f.clone(), v.clone())); (S::Hash(n), Rep::Int(1)) }
+            }
+            _ => wt(),
+        },
+        Prim::HDel(f) => match st {
+            S::None => (S::None, Rep::Int(0)),
+            S::Hash(l) => if l.iter().any(|e| &e.0 == f) { let n: Vec<(B, B)> = l.iter().filter(|e| &e.0 != f).cloned().collect(); (if n.is_empty() { S::None } else { S::Hash(n) }, Rep::Int(1)) } else { (st.clone(), Rep::Int(0)) },
+            _ => wt(),
+        },
+        Prim::HGetAll => match st {
+            S::None => (S::None, Rep::Arr(vec![])),
+            S::Hash(l) => { let mut n = l.clone(); n.sort(); (st.clone(), Rep::Arr(n.into_iter().flat_map(|(f, v)| [f, v]).collect())) }
+            _ => wt(),
+        },
     }
 }
 
-#[derive(Clone, Debug)]
+#[derive(Clone, Debug, Serialize, Deserialize)]
 struct OpRec {
     id: usize,
     inv: u64,
@@ -172,50 +311,36 @@ struct OpRec {
     prims: Vec<Prim>,
     reps: Vec<Rep>,
     via: String,
-    /// the request was abandoned (future dropped / task aborted) after it was started: no reply
-    /// was observed; it may take effect at any instant after `inv`, or never
+    /// abandoned after it was started: no reply was observed; it may take effect at any
+    /// instant after `inv`, or never
     pending: bool,
 }
-#[derive(Clone, Debug)]
+#[derive(Clone, Debug, Serialize, Deserialize)]
 struct Window {
     key: String,
     round: usize,
-    init: Option<Vec<u8>>,
+    init: State,
     ops: Vec<OpRec>,
-}
-
-/// What a command can answer at all on a string-or-absent key.  Anything else is a reply that
-/// belongs to some other request.
-fn shape_ok(p: &Prim, r: &Rep) -> bool {
-    match (p, r) {
-        (Prim::Get, Rep::Val(_)) => true,
-        (Prim::Set(_), Rep::Ok) => true,
-        (Prim::Incr, Rep::Int(_)) | (Prim::Incr, Rep::ErrNotInt) | (Prim::Incr, Rep::ErrOverflow) => true,
-        (Prim::Append(_), Rep::Int(_)) => true,
-        (Prim::Del, Rep::Int(0)) | (Prim::Del, Rep::Int(1)) => true,
-        _ => false,
-    }
 }
 fn window_shapes_ok(w: &Window) -> bool {
     w.ops.iter().filter(|o| !o.pending).all(|o| o.prims.len() == o.reps.len() && o.prims.iter().zip(o.reps.iter()).all(|(p, r)| shape_ok(p, r)))
 }
 
 /// Exhaustive search over the real-time-respecting orders of the completed operations plus any
-/// subset of the pending ones (classical definition: some completion of the history),
-/// memoised on (set placed, value).  Returns the witness: indices into `w.ops` in linearization
-/// order, with the replies the reference machine gives along it.
+/// subset of the pending ones, memoised on (set placed, value).  Returns the witness: indices
+/// into `w.ops` in linearization order, with the replies the reference machine gives.
 fn linearize(w: &Window) -> Option<Vec<(usize, Vec<Rep>)>> {
     let n = w.ops.len();
     if n > 60 || w.ops.iter().any(|o| !o.pending && o.inv >= o.ret) {
         return None;
     }
-    let mut completed_mask = 0u64;
+    let mut cm = 0u64;
     for (i, o) in w.ops.iter().enumerate() {
         if !o.pending {
-            completed_mask |= 1 << i;
+            cm |= 1 << i;
         }
     }
-    fn go(w: &Window, cm: u64, done: u64, st: &Option<Vec<u8>>, seen: &mut HashSet<(u64, Option<Vec<u8>>)>, order: &mut Vec<(usize, Vec<Rep>)>) -> bool {
+    fn go(w: &Window, cm: u64, done: u64, st: &State, seen: &mut HashSet<(u64, State)>, order: &mut Vec<(usize, Vec<Rep>)>) -> bool {
         let n = w.ops.len();
         if done & cm == cm {
             return true;
@@ -229,7 +354,6 @@ fn linearize(w: &Window) -> Option<Vec<(usize, Vec<Rep>)>> {
             }
             let o = &w.ops[i];
             // minimal: no other remaining COMPLETED operation returned before o was invoked
-            // (a pending operation has no response, it never forces anything after it)
             if (0..n).any(|j| j != i && done & (1 << j) == 0 && !w.ops[j].pending && w.ops[j].ret < o.inv) {
                 continue;
             }
@@ -260,7 +384,7 @@ fn linearize(w: &Window) -> Option<Vec<(usize, Vec<Rep>)>> {
     }
     let mut seen = HashSet::new();
     let mut order = Vec::new();
-    if go(w, completed_mask, 0, &w.init, &mut seen, &mut order) { Some(order) } else { None }
+    if go(w, cm, 0, &w.init, &mut seen, &mut order) { Some(order) } else { None }
 }
 fn linearizable(w: &Window) -> bool {
     linearize(w).is_some()
@@ -268,57 +392,40 @@ fn linearizable(w: &Window) -> bool {
 
 /// The window as a Coq term (a COMPLETE history for `lin_check`).
 /// * linearizable: the completed operations plus the pending ones the witness uses, each of
-///   those completed with a response stamp after everything else (a pending operation has no
-///   response: any later stamp describes it) and the replies the reference machine assigns -
-///   i.e. the completion of the history that the classical definition asks to exist; Coq
-///   re-judges that completion.  Listed in witness order (`lin_check` is complete, the order
-///   cannot change its answer, only how soon the search meets a linearization).
-/// * not linearizable (no completion is): the completed operations alone; in particular that
-///   completion is not linearizable, and Coq says so.
+///   those completed with a response stamp after everything else and the replies the reference
+///   machine assigns - the completion the classical definition asks to exist; Coq re-judges
+///   it.  Listed in witness order (`lin_check` is complete: the order cannot change its answer).
+/// * not linearizable (no completion is): the completed operations alone.
 fn window_term(w: &Window, verdict: bool) -> String {
     let maxstamp = w.ops.iter().map(|o| if o.pending { o.inv } else { o.ret.max(o.inv) }).max().unwrap_or(0);
+    let one = |o: &OpRec, ret: u64, reps: &[Rep]| format!("Oc {} {} {} {} {}", o.id, o.inv, ret, clist(o.prims.iter(), prim_term), clist(reps.iter(), rep_term));
     let items: Vec<String> = match linearize(w) {
         Some(order) => {
             let mut k = 0;
             order.iter().map(|(i, reps)| {
                 let o = &w.ops[*i];
                 let ret = if o.pending { k += 1; maxstamp + k } else { o.ret };
-                format!("Oc {} {} {} {} {}", o.id, o.inv, ret, clist(o.prims.iter(), prim_term), clist(reps.iter(), rep_term))
+                one(o, ret, reps)
             }).collect()
         }
-        None => w.ops.iter().filter(|o| !o.pending).map(|o| {
-            format!("Oc {} {} {} {} {}", o.id, o.inv, o.ret, clist(o.prims.iter(), prim_term), clist(o.reps.iter(), rep_term))
-        }).collect(),
+        None => w.ops.iter().filter(|o| !o.pending).map(|o| one(o, o.ret, &o.reps)).collect(),
     };
-    format!("W2 {} [{}] {}", copt(&w.init, |v| chex(v)), items.join("; "), cbool(verdict))
+    format!("W2 {} [{}] {}", state_term(&w.init), items.join("; "), cbool(verdict))
+}
+fn show(b: &[u8]) -> String {
+    String::from_utf8_lossy(b).into_owned()
 }
 fn window_json(w: &Window, verdict: bool) -> Value {
     json!({
-        "key": w.key, "key_hex": hex(w.key.as_bytes()), "round": w.round, "init": w.init.as_ref().map(|v| hex(v)),
+        "key": w.key, "round": w.round,
         "harness_verdict_linearizable": verdict,
         "reply_shapes_possible": window_shapes_ok(w),
-        "ops": w.ops.iter().map(|o| json!({"id": o.id, "inv": o.inv, "ret": if o.pending { Value::Null } else { json!(o.ret) }, "via": o.via,
-            "pending": o.pending,
-            "prims": o.prims.iter().map(prim_json).collect::<Vec<_>>(),
-            "reps": o.reps.iter().map(rep_json).collect::<Vec<_>>()})).collect::<Vec<_>>(),
+        "readable": w.ops.iter().map(|o| format!("#{} [{}..{}] {} {} -> {}", o.id, o.inv, if o.pending { "PENDING".to_string() } else { o.ret.to_string() }, o.via,
+            o.prims.iter().map(|p| match p { Prim::Set(v) | Prim::SetNx(v) | Prim::Append(v) | Prim::GetSet(v) | Prim::LPush(v) | Prim::RPush(v) | Prim::SAdd(v) | Prim::SRem(v) | Prim::SetOpt(v, ..) => format!("{} {}", prim_name(p), show(v)), Prim::IncrBy(z) => format!("INCRBY {}", z), _ => prim_name(p).to_string() }).collect::<Vec<_>>().join("+"),
+            o.reps.iter().map(|r| match r { Rep::Val(Some(v)) => format!("\"{}\"", show(v)), Rep::Val(None) => "nil".into(), Rep::Arr(l) => format!("{:?}", l.iter().map(|v| show(v)).collect::<Vec<_>>()), other => format!("{:?}", other) }).collect::<Vec<_>>().join(","))).collect::<Vec<_>>(),
         "coq_window": window_term(w, verdict),
+        "window": serde_json::to_value(w).unwrap(),
     })
-}
-fn window_of_json(v: &Value) -> Window {
-    Window {
-        key: v["key"].as_str().unwrap_or("").to_string(),
-        round: v["round"].as_u64().unwrap_or(0) as usize,
-        init: v["init"].as_str().map(unhex),
-        ops: v["ops"].as_array().cloned().unwrap_or_default().iter().map(|o| OpRec {
-            id: o["id"].as_u64().unwrap_or(0) as usize,
-            inv: o["inv"].as_u64().unwrap_or(0),
-            ret: o["ret"].as_u64().unwrap_or(0),
-            via: o["via"].as_str().unwrap_or("").to_string(),
-            pending: o["pending"].as_bool().unwrap_or(false),
-            prims: o["prims"].as_array().cloned().unwrap_or_default().iter().map(prim_of_json).collect(),
-            reps: o["reps"].as_array().cloned().unwrap_or_default().iter().map(rep_of_json).collect(),
-        }).collect(),
-    }
 }
 
 // ---- scripts of the clients -----------------------------------------------------------------
@@ -334,10 +441,17 @@ enum Via {
 struct Step {
     via: Via,
     /// (key index, primitive) in command order; Generic/Fast/Pooled: exactly one entry;
-    /// Batch: all GETs or all SETs (keys may repeat); Eval: two primitives on one key.
+    /// Batch: all GETs or all SETs (keys may repeat); Eval: the script's commands on one key.
     items: Vec<(usize, Prim)>,
+    /// 0 GET+SET, 1 INCR+GET, 2 INCR; busy-loop scripts: 3 INCR then loop, 4 loop then INCR,
+    /// 5 loop then GET, 6 loop then LPUSH
     script: u8,
+    iters: u64,
     yield_before: bool,
+    delay_ms: u64,
+}
+fn step(via: Via, items: Vec<(usize, Prim)>) -> Step {
+    Step { via, items, script: 0, iters: 0, yield_before: false, delay_ms: 0 }
 }
 #[derive(Clone, Copy, Debug, PartialEq)]
 enum Mode {
@@ -349,52 +463,137 @@ enum Mode {
 fn gen_value(rng: &mut Rng, client: usize, serial: &mut u64) -> Vec<u8> {
     *serial += 1;
     if rng.gen_bool(0.4) {
-        // numeric and unique: INCR works on it
         format!("{}", (client as u64 + 1) * 100_000 + *serial).into_bytes()
     } else if rng.gen_bool(0.03) {
-        // INCR overflows on it (unique by round trip only once per case is enough)
         b"9223372036854775807".to_vec()
+    } else if rng.gen_bool(0.02) {
+        b"-9223372036854775808".to_vec()
     } else {
         format!("c{}v{}", client, serial).into_bytes()
     }
 }
 
-fn gen_step(rng: &mut Rng, mode: Mode, nkeys: usize, client: usize, serial: &mut u64, eval: bool) -> Step {
+/// One generic-path command for a key of the given kind.
+fn gen_generic_prim(rng: &mut Rng, kind: Kind, client: usize, serial: &mut u64) -> Prim {
+    let c = rng.gen_range(0..100);
+    if c < 6 { return Prim::Del; }
+    if c < 10 { return Prim::Exists; }
+    match kind {
+        Kind::Str => match c {
+            10..=21 => Prim::Get,
+            22..=33 => Prim::Set(gen_value(rng, client, serial)),
+            34..=43 => Prim::IncrBy(1),
+            44..=47 => Prim::IncrBy(-1),
+            48..=51 => Prim::IncrBy(rng.gen_range(2..50)),
+            52..=55 => Prim::IncrBy(-rng.gen_range(2..50)),
+            56..=61 => { *serial += 1; Prim::Append(format!("+{}.{}", client, serial).into_bytes()) }
+            62..=71 => Prim::SetNx(gen_value(rng, client, serial)),
+            72..=81 => { let v = gen_value(rng, client, serial); match rng.gen_range(0..5) { 0 => Prim::SetOpt(v, true, false, false), 1 => Prim::SetOpt(v, false, true, false), 2 => Prim::SetOpt(v, false, false, true), 3 => Prim::SetOpt(v, true, false, true), _ => Prim::SetOpt(v, false, true, true) } }
+            82..=88 => Prim::GetSet(gen_value(rng, client, serial)),
+            89..=93 => Prim::GetDel,
+            _ => { *serial += 1; Prim::SetRange(rng.gen_range(0..7), if rng.gen_bool(0.1) { vec![] } else { format!("r{}", serial).into_bytes() }) }
+        },
+        Kind::List => match c {
+            10..=34 => { *serial += 1; Prim::LPush(format!("l{}.{}", client, serial).into_bytes()) }
+            35..=59 => { *serial += 1; Prim::RPush(format!("r{}.{}", client, serial).into_bytes()) }
+            60..=74 => Prim::LPop,
+            75..=89 => Prim::RPop,
+            _ => Prim::LRange,
+        },
+        Kind::Set => match c {
+            10..=54 => Prim::SAdd(format!("m{}", rng.gen_range(0..4)).into_bytes()),
+            55..=84 => Prim::SRem(format!("m{}", rng.gen_range(0..4)).into_bytes()),
+            _ => Prim::SMembers,
+        },
+        Kind::Hash => match c {
+            10..=54 => { *serial += 1; Prim::HSet(format!("f{}", rng.gen_range(0..3)).into_bytes(), format!("h{}.{}", client, serial).into_bytes()) }
+            55..=84 => Prim::HDel(format!("f{}", rng.gen_range(0..3)).into_bytes()),
+            _ => Prim::HGetAll,
+        },
+    }
+}
+
+fn gen_step(rng: &mut Rng, mode: Mode, kinds: &[Kind], client: usize, serial: &mut u64, eval: bool) -> Step {
+    let nkeys = kinds.len();
     let k = rng.gen_range(0..nkeys);
     let yield_before = rng.gen_bool(0.3);
-    let fast_via = |rng: &mut Rng| match rng.gen_range(0..3) { 0 => Via::Fast, 1 => Via::Pooled, _ => Via::Batch };
-    let class_fast = match mode { Mode::FastOnly => true, Mode::GenericOnly => false, Mode::Mixed => rng.gen_bool(0.5) };
-    if class_fast {
-        let via = fast_via(rng);
-        let is_get = rng.gen_bool(0.5);
+    let class_fast = match mode { Mode::FastOnly => true, Mode::GenericOnly => false, Mode::Mixed => rng.gen_bool(if kinds[k] == Kind::Str { 0.45 } else { 0.12 }) };
+    let mut s = if class_fast {
+        let via = match rng.gen_range(0..3) { 0 => Via::Fast, 1 => Via::Pooled, _ => Via::Batch };
+        // a fast-path SET would turn a list/set/hash key into a string: only GET there (WRONGTYPE or nil)
+        let is_get = kinds[k] != Kind::Str || rng.gen_bool(0.5);
         if via == Via::Batch {
             let n = rng.gen_range(1..=3);
             let items = (0..n).map(|j| {
-                let kk = if j == 0 { k } else { rng.gen_range(0..nkeys) };
+                let mut kk = if j == 0 { k } else { rng.gen_range(0..nkeys) };
+                if !is_get && kinds[kk] != Kind::Str { kk = k; }
                 (kk, if is_get { Prim::Get } else { Prim::Set(gen_value(rng, client, serial)) })
             }).collect();
-            return Step { via, items, script: 0, yield_before };
-        }
-        let p = if is_get { Prim::Get } else { Prim::Set(gen_value(rng, client, serial)) };
-        return Step { via, items: vec![(k, p)], script: 0, yield_before };
-    }
-    let c = rng.gen_range(0..100);
-    if eval && c < 14 {
-        let (script, prims) = if rng.gen_bool(0.6) {
-            (0u8, vec![(k, Prim::Get), (k, Prim::Set(gen_value(rng, client, serial)))])
+            step(via, items)
         } else {
-            (1u8, vec![(k, Prim::Incr), (k, Prim::Get)])
+            step(via, vec![(k, if is_get { Prim::Get } else { Prim::Set(gen_value(rng, client, serial)) })])
+        }
+    } else if eval && kinds[k] == Kind::Str && rng.gen_range(0..100) < 12 {
+        let mut s = match rng.gen_range(0..3) {
+            0 => { let mut s = step(Via::Eval, vec![(k, Prim::Get), (k, Prim::Set(gen_value(rng, client, serial)))]); s.script = 0; s }
+            1 => { let mut s = step(Via::Eval, vec![(k, Prim::IncrBy(1)), (k, Prim::Get)]); s.script = 1; s }
+            _ => { let mut s = step(Via::Eval, vec![(k, Prim::IncrBy(1))]); s.script = 2; s }
         };
-        return Step { via: Via::Eval, items: prims, script, yield_before };
-    }
-    let p = match c % 10 {
-        0..=2 => Prim::Get,
-        3..=5 => Prim::Set(gen_value(rng, client, serial)),
-        6..=7 => Prim::Incr,
-        8 => { *serial += 1; Prim::Append(format!("+{}.{}", client, serial).into_bytes()) }
-        _ => Prim::Del,
+        s.yield_before = yield_before;
+        return s;
+    } else {
+        step(Via::Generic, vec![(k, gen_generic_prim(rng, kinds[k], client, serial))])
     };
-    Step { via: Via::Generic, items: vec![(k, p)], script: 0, yield_before }
+    s.yield_before = yield_before;
+    s
+}
+
+/// The same conditional write for every client (own value), for first-writer races on key 0.
+fn race_prim(rng: &mut Rng, kind: Kind, which: u32, client: usize, serial: &mut u64) -> Prim {
+    match kind {
+        Kind::Str => match which % 6 {
+            0 | 1 => Prim::SetNx(gen_value(rng, client, serial)),
+            2 => Prim::SetOpt(gen_value(rng, client, serial), true, false, false),
+            3 => Prim::SetOpt(gen_value(rng, client, serial), true, false, true),
+            4 => Prim::GetSet(gen_value(rng, client, serial)),
+            _ => Prim::IncrBy(1),
+        },
+        Kind::List => { *serial += 1; Prim::LPush(format!("l{}.{}", client, serial).into_bytes()) }
+        Kind::Set => Prim::SAdd(b"m0".to_vec()),
+        Kind::Hash => { *serial += 1; Prim::HSet(b"f0".to_vec(), format!("h{}.{}", client, serial).into_bytes()) }
+    }
+}
+
+fn cmd_of(key: &str, p: &Prim) -> Command {
+    let k = key.to_string();
+    let s = |v: &B| SDS::new(v.clone());
+    match p {
+        Prim::Get => Command::Get(k),
+        Prim::Set(v) => Command::set(k, s(v)),
+        Prim::IncrBy(1) => Command::Incr(k),
+        Prim::IncrBy(-1) => Command::Decr(k),
+        Prim::IncrBy(z) if *z > 0 => Command::IncrBy(k, *z),
+        Prim::IncrBy(z) => Command::DecrBy(k, -*z),
+        Prim::Append(v) => Command::Append(k, s(v)),
+        Prim::Del => Command::Del(vec![k]),
+        Prim::SetNx(v) => Command::SetNx(k, s(v)),
+        Prim::SetOpt(v, nx, xx, get) => Command::Set { key: k, value: s(v), ex: None, px: None, exat: None, pxat: None, nx: *nx, xx: *xx, get: *get, keepttl: false },
+        Prim::GetSet(v) => Command::GetSet(k, s(v)),
+        Prim::GetDel => Command::GetDel(k),
+        Prim::SetRange(o, v) => Command::SetRange(k, *o, s(v)),
+        Prim::Exists => Command::Exists(vec![k]),
+        Prim::LPush(v) => Command::LPush(k, vec![s(v)]),
+        Prim::RPush(v) => Command::RPush(k, vec![s(v)]),
+        Prim::LPop => Command::LPop(k),
+        Prim::RPop => Command::RPop(k),
+        Prim::LRange => Command::LRange(k, 0, -1),
+        Prim::SAdd(v) => Command::SAdd(k, vec![s(v)]),
+        Prim::SRem(v) => Command::SRem(k, vec![s(v)]),
+        Prim::SMembers => Command::SMembers(k),
+        Prim::HSet(f, v) => Command::HSet(k, vec![(s(f), s(v))]),
+        Prim::HDel(f) => Command::HDel(k, vec![s(f)]),
+        Prim::HGetAll => Command::HGetAll(k),
+    }
 }
 
 struct Done {
@@ -406,6 +605,9 @@ struct Done {
 }
 
 async fn run_step(state: &ShardedActorState, keys: &[String], st: &Step) -> Done {
+    if st.delay_ms > 0 {
+        tokio::time::sleep(std::time::Duration::from_millis(st.delay_ms)).await;
+    }
     if st.yield_before {
         tokio::task::yield_now().await;
     }
@@ -416,22 +618,16 @@ async fn run_step(state: &ShardedActorState, keys: &[String], st: &Step) -> Done
         e.0.push(p.clone());
         e.1.push(r);
     };
-    let (inv, ret, via);
+    let (inv, ret, via): (u64, u64, String);
     match st.via {
         Via::Generic => {
             let (k, p) = &st.items[0];
-            let cmd = match p {
-                Prim::Get => Command::Get(keys[*k].clone()),
-                Prim::Set(v) => Command::set(keys[*k].clone(), SDS::new(v.clone())),
-                Prim::Incr => Command::Incr(keys[*k].clone()),
-                Prim::Append(v) => Command::Append(keys[*k].clone(), SDS::new(v.clone())),
-                Prim::Del => Command::Del(vec![keys[*k].clone()]),
-            };
+            let cmd = cmd_of(&keys[*k], p);
             inv = stamp();
             let r = state.execute(&cmd).await;
             ret = stamp();
-            via = "execute";
-            push(*k, p, canon(&r));
+            via = format!("execute({})", prim_name(p));
+            push(*k, p, canon(p, &r));
         }
         Via::Fast | Via::Pooled => {
             let (k, p) = &st.items[0];
@@ -442,18 +638,18 @@ async fn run_step(state: &ShardedActorState, keys: &[String], st: &Step) -> Done
                     inv = stamp();
                     r = if pooled { state.pooled_fast_get(kb(*k)).await } else { state.fast_get(kb(*k)).await };
                     ret = stamp();
-                    via = if pooled { "pooled_fast_get" } else { "fast_get" };
+                    via = if pooled { "pooled_fast_get".into() } else { "fast_get".into() };
                 }
                 Prim::Set(v) => {
                     let val = Bytes::from(v.clone());
                     inv = stamp();
                     r = if pooled { state.pooled_fast_set(kb(*k), val).await } else { state.fast_set(kb(*k), val).await };
                     ret = stamp();
-                    via = if pooled { "pooled_fast_set" } else { "fast_set" };
+                    via = if pooled { "pooled_fast_set".into() } else { "fast_set".into() };
                 }
                 _ => unreachable!("fast paths carry GET/SET only"),
             }
-            push(*k, p, canon(&r));
+            push(*k, p, canon(p, &r));
         }
         Via::Batch => {
             let is_get = matches!(st.items[0].1, Prim::Get);
@@ -463,7 +659,7 @@ async fn run_step(state: &ShardedActorState, keys: &[String], st: &Step) -> Done
                 inv = stamp();
                 rs = state.fast_batch_get_pipeline(ks).await;
                 ret = stamp();
-                via = "fast_batch_get_pipeline";
+                via = "fast_batch_get_pipeline".into();
             } else {
                 let ps: Vec<(Bytes, Bytes)> = st.items.iter().map(|(k, p)| match p {
                     Prim::Set(v) => (kb(*k), Bytes::from(v.clone())),
@@ -472,52 +668,51 @@ async fn run_step(state: &ShardedActorState, keys: &[String], st: &Step) -> Done
                 inv = stamp();
                 rs = state.fast_batch_set_pipeline(ps).await;
                 ret = stamp();
-                via = "fast_batch_set_pipeline";
+                via = "fast_batch_set_pipeline".into();
             }
             for (j, (k, p)) in st.items.iter().enumerate() {
-                let r = rs.get(j).map(canon).unwrap_or_else(|| Rep::Other("missing batch reply".into()));
+                let r = rs.get(j).map(|r| canon(p, r)).unwrap_or_else(|| Rep::Other("missing batch reply".into()));
                 push(*k, p, r);
             }
         }
         Via::Eval => {
             let k = st.items[0].0;
-            let (script, args) = if st.script == 0 {
-                let v = match &st.items[1].1 { Prim::Set(v) => v.clone(), _ => unreachable!() };
-                (SCRIPT_GETSET, vec![SDS::new(v)])
-            } else {
-                (SCRIPT_INCRGET, vec![])
+            let it = SDS::new(st.iters.to_string().into_bytes());
+            let (script, args): (String, Vec<SDS>) = match st.script {
+                0 => (SCRIPT_GETSET.into(), vec![match &st.items[1].1 { Prim::Set(v) => SDS::new(v.clone()), _ => unreachable!() }]),
+                1 => (SCRIPT_INCRGET.into(), vec![]),
+                2 => (SCRIPT_INCR.into(), vec![]),
+                3 => (format!("local r = redis.call('INCR', KEYS[1]); {}return r", BUSY), vec![it]),
+                4 => (format!("{}return redis.call('INCR', KEYS[1])", BUSY), vec![it]),
+                5 => (format!("{}return redis.call('GET', KEYS[1])", BUSY), vec![it]),
+                _ => (format!("{}return redis.call('LPUSH', KEYS[1], ARGV[2])", BUSY), vec![it, match &st.items[0].1 { Prim::LPush(v) => SDS::new(v.clone()), _ => unreachable!() }]),
             };
-            let cmd = Command::Eval { script: script.to_string(), keys: vec![keys[k].clone()], args };
+            let cmd = Command::Eval { script, keys: vec![keys[k].clone()], args };
             inv = stamp();
             let r = state.execute(&cmd).await;
             ret = stamp();
-            via = "execute(EVAL)";
+            via = format!("execute(EVAL script {}{})", st.script, if st.iters > 0 { format!(", busy loop {} iterations", st.iters) } else { String::new() });
+            let first = &st.items[0].1;
             match &r {
-                RespValue::Array(Some(a)) if a.len() == 2 => {
-                    push(k, &st.items[0].1, canon(&a[0]));
-                    push(k, &st.items[1].1, canon(&a[1]));
+                RespValue::Array(Some(a)) if a.len() == 2 && st.script <= 1 => {
+                    push(k, &st.items[0].1, canon(&st.items[0].1, &a[0]));
+                    push(k, &st.items[1].1, canon(&st.items[1].1, &a[1]));
                 }
-                // INCR raised inside the script: the script aborts with the error, nothing after runs
-                RespValue::Error(e) if st.script == 1 && e.contains("not an integer") => {
-                    push(k, &st.items[0].1, Rep::ErrNotInt);
-                }
-                RespValue::Error(e) if st.script == 1 && e.contains("would overflow") => {
-                    push(k, &st.items[0].1, Rep::ErrOverflow);
-                }
-                other => {
-                    push(k, &st.items[0].1, Rep::Other(format!("{:?}", other)));
-                }
+                // a command raised inside the script: the script aborts with that error, nothing after it runs
+                RespValue::Error(e) if matches!(first, Prim::IncrBy(_)) && e.contains("not an integer") => push(k, first, Rep::ErrNotInt),
+                RespValue::Error(e) if matches!(first, Prim::IncrBy(_)) && e.contains("would overflow") => push(k, first, Rep::ErrOverflow),
+                other if st.script >= 2 && !matches!(other, RespValue::Error(_)) => push(k, first, canon(first, other)),
+                other => push(k, first, Rep::Other(format!("{:?}", other))),
             }
         }
     }
-    Done { inv, ret, via: via.to_string(), per_key }
+    Done { inv, ret, via, per_key }
 }
 
 /// A request a saboteur starts and gives up on.
 #[derive(Clone, Debug)]
 struct SabStep {
     step: Step,
-    /// key index `nkeys` in `step.items` = the junk key (never part of a window)
     how: u8, // 0: poll once then drop; 1: tokio::time::timeout(0); 2: spawn + abort; 3: spawn, yield, abort
     /// enters the history as a pending operation (only requests that write)
     record: bool,
@@ -530,7 +725,6 @@ async fn poll_once<F: std::future::Future>(fut: F) -> Option<F::Output> {
         std::task::Poll::Pending => std::task::Poll::Ready(None),
     })
     .await
-    // `fut` is dropped here: the request is abandoned after its message was sent
 }
 
 /// Start the request, abandon it; `Some` if it completed before it could be abandoned.
@@ -557,9 +751,24 @@ struct CaseRun {
     abandoned_pooled: usize,
     completed_before_abandon: usize,
     padding_ops: usize,
+    longest_ms: u64,
 }
 
-fn run_case(rt: &tokio::runtime::Runtime, nshards: usize, keys: &[String], mode: Mode,
+fn read_prim(kind: Kind) -> Prim {
+    match kind { Kind::Str => Prim::Get, Kind::List => Prim::LRange, Kind::Set => Prim::SMembers, Kind::Hash => Prim::HGetAll }
+}
+/// The key's whole value, from the reply of the barrier read.
+fn state_of_read(kind: Kind, r: &Rep) -> State {
+    match (kind, r) {
+        (Kind::Str, Rep::Val(Some(v))) => State::Str(v.clone()),
+        (Kind::List, Rep::Arr(l)) if !l.is_empty() => State::List(l.clone()),
+        (Kind::Set, Rep::Arr(l)) if !l.is_empty() => State::Set(l.clone()),
+        (Kind::Hash, Rep::Arr(l)) if !l.is_empty() && l.len() % 2 == 0 => State::Hash(l.chunks(2).map(|c| (c[0].clone(), c[1].clone())).collect()),
+        _ => State::None,
+    }
+}
+
+fn run_case(rt: &tokio::runtime::Runtime, nshards: usize, keys: &[String], kinds: &[Kind], mode: Mode,
             scripts: &[Vec<Vec<Step>>], rounds: usize, wave: bool,
             sabs: &[Vec<Vec<SabStep>>], padding: usize) -> CaseRun {
     let nk = keys.len();
@@ -568,16 +777,18 @@ fn run_case(rt: &tokio::runtime::Runtime, nshards: usize, keys: &[String], mode:
     allkeys.push(JUNK_KEY.to_string());
     allkeys.push(PAD_KEY.to_string());
     let keys: Arc<Vec<String>> = Arc::new(allkeys);
+    let kinds: Vec<Kind> = kinds.to_vec();
     let scripts: Arc<Vec<Vec<Vec<Step>>>> = Arc::new(scripts.to_vec());
     let sabs: Arc<Vec<Vec<Vec<SabStep>>>> = Arc::new(sabs.to_vec());
     rt.block_on(async move {
         let state = ShardedActorState::with_shards(nshards);
         let nclients = scripts.len();
         let mut windows: Vec<Window> = Vec::new();
-        let mut init: Vec<Option<Vec<u8>>> = vec![None; nk];
+        let mut init: Vec<State> = vec![State::None; nk];
         let mut panicked = None;
         let (mut abandoned, mut abandoned_pooled, mut completed_before_abandon, mut padding_ops) = (0usize, 0usize, 0usize, 0usize);
-        let mut pad_value: Option<Vec<u8>> = None;
+        let mut longest_ms = 0u64;
+        let mut pad_value = State::None;
         let mut pad_serial = 0u64;
         for round in 0..rounds {
             let barrier = Arc::new(tokio::sync::Barrier::new(nclients));
@@ -590,14 +801,17 @@ fn run_case(rt: &tokio::runtime::Runtime, nshards: usize, keys: &[String], mode:
                 handles.push(tokio::spawn(async move {
                     barrier.wait().await;
                     let mut out = Vec::new();
+                    let mut longest = 0u64;
                     for st in scripts[c][round].iter() {
                         if wave {
                             // release the j-th command of every client at the same moment
                             barrier.wait().await;
                         }
+                        let t0 = std::time::Instant::now();
                         out.push(run_step(&state, &keys, st).await);
+                        longest = longest.max((t0.elapsed().as_millis() as u64).saturating_sub(st.delay_ms));
                     }
-                    out
+                    (out, longest)
                 }));
             }
             // saboteurs: start requests on the shared keys and abandon them mid-flight
@@ -614,14 +828,10 @@ fn run_case(rt: &tokio::runtime::Runtime, nshards: usize, keys: &[String], mode:
                     for sab in sabs[sb][round].iter() {
                         let inv = stamp();
                         match abandon(&state, &keys, sab).await {
-                            // it completed before it could be abandoned: an ordinary completed
-                            // operation.  Ghost requests (not recorded) are kept in the history
-                            // only up to 5 per round (window size), except when the reply has
-                            // a shape the command cannot produce - that is always kept.
+                            // completed before it could be abandoned: an ordinary completed operation;
+                            // ghost requests are kept up to 5 per round, or when the reply shape is impossible
                             Some(d) => {
-                                let shapes = sab.step.items.iter().all(|(k, p)| d.per_key.get(k).map(|(ps, rs)| {
-                                    ps.iter().zip(rs.iter()).filter(|(q, _)| *q == p).all(|(q, r)| shape_ok(q, r))
-                                }).unwrap_or(true));
+                                let shapes = d.per_key.values().all(|(ps, rs)| ps.iter().zip(rs.iter()).all(|(q, r)| shape_ok(q, r)));
                                 if sab.record || !shapes || kept_ghosts < 5 {
                                     if !sab.record { kept_ghosts += 1; }
                                     completed.push(d);
@@ -642,7 +852,7 @@ fn run_case(rt: &tokio::runtime::Runtime, nshards: usize, keys: &[String], mode:
             let mut done: Vec<Done> = Vec::new();
             for h in handles {
                 match h.await {
-                    Ok(v) => done.extend(v),
+                    Ok((v, l)) => { done.extend(v); longest_ms = longest_ms.max(l); }
                     Err(e) => panicked = Some(format!("client task failed: {:?}", e)),
                 }
             }
@@ -663,7 +873,7 @@ fn run_case(rt: &tokio::runtime::Runtime, nshards: usize, keys: &[String], mode:
             for d in done.iter() {
                 if let Some((ps, rs)) = d.per_key.get(&nk) {
                     if !ps.iter().zip(rs.iter()).all(|(p, r)| shape_ok(p, r)) {
-                        windows.push(Window { key: JUNK_KEY.to_string(), round, init: None,
+                        windows.push(Window { key: JUNK_KEY.to_string(), round, init: State::None,
                             ops: vec![OpRec { id: 0, inv: 0, ret: 1, prims: ps.clone(), reps: rs.clone(), pending: false, via: d.via.clone() }] });
                     }
                 }
@@ -672,44 +882,40 @@ fn run_case(rt: &tokio::runtime::Runtime, nshards: usize, keys: &[String], mode:
             // its own key; every reply is determined exactly (SET -> OK, GET -> the last value)
             for j in 0..padding {
                 let kb = Bytes::from(PAD_KEY.as_bytes().to_vec());
-                let (prim, rep, i0, i1);
+                let (prim, rep);
                 if j % 2 == 0 {
                     pad_serial += 1;
                     let v = format!("pad{}", pad_serial).into_bytes();
-                    i0 = stamp();
                     let r = state.pooled_fast_set(kb, Bytes::from(v.clone())).await;
-                    i1 = stamp();
                     prim = Prim::Set(v);
-                    rep = canon(&r);
+                    rep = canon(&prim, &r);
                 } else {
-                    i0 = stamp();
                     let r = state.pooled_fast_get(kb).await;
-                    i1 = stamp();
                     prim = Prim::Get;
-                    rep = canon(&r);
+                    rep = canon(&prim, &r);
                 }
                 padding_ops += 1;
                 let (nx, want) = apply(&pad_value, &prim);
                 if rep != want {
-                    // a one-operation window on the padding key: not linearizable from the known value
-                    let _ = (i0, i1);
                     windows.push(Window { key: PAD_KEY.to_string(), round, init: pad_value.clone(),
                         ops: vec![OpRec { id: 0, inv: 0, ret: 1, prims: vec![prim.clone()], reps: vec![rep], pending: false,
                                           via: format!("padding {} #{}", if j % 2 == 0 { "pooled_fast_set" } else { "pooled_fast_get" }, j) }] });
                 }
                 pad_value = nx;
             }
-            // barrier reads: one per key, through the path class of this case
-            let mut finals: Vec<(u64, u64, Rep)> = Vec::new();
+            // barrier reads: the whole value of every key, through the path class of this case
+            let mut finals: Vec<(u64, u64, Prim, Rep)> = Vec::new();
             for k in 0..nk {
+                let p = read_prim(kinds[k]);
                 let inv = stamp();
                 let r = if mode == Mode::FastOnly {
                     state.fast_get(Bytes::from(keys[k].clone().into_bytes())).await
                 } else {
-                    state.execute(&Command::Get(keys[k].clone())).await
+                    state.execute(&cmd_of(&keys[k], &p)).await
                 };
                 let ret = stamp();
-                finals.push((inv, ret, canon(&r)));
+                let rep = canon(&p, &r);
+                finals.push((inv, ret, p, rep));
             }
             for k in 0..nk {
                 let mut ops: Vec<OpRec> = Vec::new();
@@ -724,15 +930,15 @@ fn run_case(rt: &tokio::runtime::Runtime, nshards: usize, keys: &[String], mode:
                         continue;
                     }
                     let ps: Vec<Prim> = sab.step.items.iter().filter(|(kk, _)| *kk == k).map(|(_, p)| p.clone()).collect();
-                    if ps.iter().any(|p| !matches!(p, Prim::Get)) {
+                    if ps.iter().any(|p| !is_read(p)) {
                         ops.push(OpRec { id: 0, inv: *inv, ret: 0, prims: ps, reps: vec![], pending: true,
                                          via: format!("ABANDONED {:?} (how {})", sab.step.via, sab.how) });
                     }
                 }
                 ops.sort_by_key(|o| o.inv);
-                let (inv, ret, rep) = finals[k].clone();
-                ops.push(OpRec { id: 0, inv, ret, prims: vec![Prim::Get], reps: vec![rep.clone()], pending: false,
-                                 via: if mode == Mode::FastOnly { "barrier fast_get".into() } else { "barrier execute(GET)".into() } });
+                let (inv, ret, p, rep) = finals[k].clone();
+                ops.push(OpRec { id: 0, inv, ret, prims: vec![p.clone()], reps: vec![rep.clone()], pending: false,
+                                 via: if mode == Mode::FastOnly { "barrier fast_get".into() } else { format!("barrier execute({})", prim_name(&p)) } });
                 // stamps -> ranks inside the window
                 let mut all: Vec<u64> = ops.iter().flat_map(|o| if o.pending { vec![o.inv] } else { vec![o.inv, o.ret] }).collect();
                 all.sort();
@@ -745,10 +951,10 @@ fn run_case(rt: &tokio::runtime::Runtime, nshards: usize, keys: &[String], mode:
                     }
                 }
                 windows.push(Window { key: keys[k].clone(), round, init: init[k].clone(), ops });
-                init[k] = match rep { Rep::Val(v) => v, _ => None };
+                init[k] = state_of_read(kinds[k], &rep);
             }
         }
-        CaseRun { windows, panicked, abandoned, abandoned_pooled, completed_before_abandon, padding_ops }
+        CaseRun { windows, panicked, abandoned, abandoned_pooled, completed_before_abandon, padding_ops, longest_ms }
     })
 }
 
@@ -787,7 +993,7 @@ fn recorded_windows(seed: u64, case: u64) -> Vec<Window> {
                 if let Ok(v) = serde_json::from_str::<Value>(&txt) {
                     if v["seed"].as_u64() == Some(seed) && v["case"].as_u64() == Some(case) {
                         if let Some(ws) = v["detail"]["failing_windows"].as_array() {
-                            out.extend(ws.iter().map(window_of_json));
+                            out.extend(ws.iter().filter_map(|w| serde_json::from_value::<Window>(w["window"].clone()).ok()));
                         }
                     }
                 }
@@ -797,193 +1003,389 @@ fn recorded_windows(seed: u64, case: u64) -> Vec<Window> {
     out
 }
 
+#[derive(Clone)]
+struct Cfg {
+    max_clients: usize,
+    mixed_multishard: bool,
+    eval: bool,
+    wide: bool,
+    sab_pct: u64,
+    race_pct: u64,
+    slow_every: u64,
+    slow_long: bool,
+    iters_per_sec: f64,
+    only: bool,
+}
+fn is_slow(cfg: &Cfg, i: u64) -> bool {
+    cfg.slow_every > 0 && i % cfg.slow_every == 5
+}
+
+/// Everything one case produces; applied to `Out` by the main thread.
+struct CaseOut {
+    idx: u64,
+    counts: Vec<String>,
+    adds: Vec<(String, u64)>,
+    impl_checks: u64,
+    violations: Vec<(String, Value)>,
+    term: String,
+    nontrivial: bool,
+    canon: String,
+    sample: Option<Value>,
+    lines: Vec<String>,
+}
+
+fn pick_kind(rng: &mut Rng) -> Kind {
+    match rng.gen_range(0..100) { 0..=54 => Kind::Str, 55..=69 => Kind::List, 70..=84 => Kind::Set, _ => Kind::Hash }
+}
+
+fn do_case(seed: u64, i: u64, cfg: &Cfg, rt: &tokio::runtime::Runtime, rt1: &tokio::runtime::Runtime) -> CaseOut {
+    let mut co = CaseOut { idx: i, counts: vec![], adds: vec![], impl_checks: 0, violations: vec![], term: String::new(), nontrivial: false, canon: String::new(), sample: None, lines: vec![] };
+    let mut rng = case_rng(seed, i);
+    let slow = is_slow(cfg, i);
+    let shard_set: &[usize] = if cfg.wide { &[1, 2, 4, 16] } else { &[1, 4] };
+    let nshards = shard_set[rng.gen_range(0..shard_set.len())];
+    let mut nclients = rng.gen_range(2..=cfg.max_clients.max(2));
+    let nkeys = rng.gen_range(1..=3usize);
+    let mut rounds = rng.gen_range(2..=4usize);
+    let mut mode = if nshards == 1 || cfg.mixed_multishard {
+        match rng.gen_range(0..10) { 0 => Mode::GenericOnly, 1 => Mode::FastOnly, _ => Mode::Mixed }
+    } else if rng.gen_bool(0.5) { Mode::GenericOnly } else { Mode::FastOnly };
+    let race = !slow && rng.gen_range(0..100) < cfg.race_pct;
+    if (race || slow) && mode == Mode::FastOnly {
+        mode = Mode::GenericOnly;
+    }
+    let mut pool: Vec<&str> = KEYPOOL.to_vec();
+    let mut keys: Vec<String> = Vec::new();
+    let mut kinds: Vec<Kind> = Vec::new();
+    for _ in 0..nkeys {
+        let j = rng.gen_range(0..pool.len());
+        keys.push(pool.remove(j).to_string());
+        kinds.push(if mode == Mode::FastOnly { Kind::Str } else { pick_kind(&mut rng) });
+    }
+    if slow {
+        kinds[0] = if rng.gen_bool(0.75) { Kind::Str } else { Kind::List };
+    }
+    let mut serial = 0u64;
+    let mut wave = rng.gen_bool(0.7);
+    // (a slow-shard case needs the waiting clients to run while the script occupies a worker)
+    let single_worker = rng.gen_bool(if race { 0.4 } else { 0.2 }) && !slow;
+    let mut scripts: Vec<Vec<Vec<Step>>>;
+    let mut slow_secs = 0.0f64;
+    if slow {
+        // ---- slow shard: client 0 occupies the shard of key 0 with a busy-loop script; the others
+        // queue non-idempotent commands on key 0 behind it (and some elsewhere)
+        let durs: &[f64] = if cfg.slow_long { &[0.3, 1.6, 3.2, 6.0] } else { &[0.3, 1.6, 3.2] };
+        slow_secs = durs[((i / cfg.slow_every) as usize) % durs.len()];
+        let iters = (slow_secs * cfg.iters_per_sec) as u64;
+        rounds = 1;
+        wave = false;
+        nclients = nclients.clamp(3, 5);
+        let busy = |rng: &mut Rng, serial: &mut u64, client: usize, iters: u64| -> Step {
+            let mut s = match kinds[0] {
+                Kind::List => { *serial += 1; let mut s = step(Via::Eval, vec![(0, Prim::LPush(format!("busy{}.{}", client, serial).into_bytes()))]); s.script = 6; s }
+                _ => match rng.gen_range(0..3) {
+                    0 => { let mut s = step(Via::Eval, vec![(0, Prim::IncrBy(1))]); s.script = 3; s }
+                    1 => { let mut s = step(Via::Eval, vec![(0, Prim::IncrBy(1))]); s.script = 4; s }
+                    _ => { let mut s = step(Via::Eval, vec![(0, Prim::Get)]); s.script = 5; s }
+                },
+            };
+            s.iters = iters;
+            s
+        };
+        let second_long = rng.gen_bool(0.3);
+        scripts = Vec::new();
+        for c in 0..nclients {
+            let mut v = Vec::new();
+            if c == 0 {
+                v.push(busy(&mut rng, &mut serial, c, iters));
+            } else if c == 1 && second_long {
+                let mut s = busy(&mut rng, &mut serial, c, iters / 2);
+                s.delay_ms = 20;
+                v.push(s);
+            } else {
+                let n = rng.gen_range(1..=3);
+                for j in 0..n {
+                    // non-idempotent commands on key 0, generic path; now and then another key / a read
+                    let k = if nkeys > 1 && rng.gen_bool(0.2) { rng.gen_range(0..nkeys) } else { 0 };
+                    let p = loop {
+                        let p = gen_generic_prim(&mut rng, kinds[k], c, &mut serial);
+                        if !is_read(&p) && !matches!(p, Prim::Del | Prim::Set(_)) || rng.gen_bool(0.1) { break p; }
+                    };
+                    let mut s = if kinds[k] == Kind::Str && rng.gen_bool(0.15) { let mut s = step(Via::Eval, vec![(k, Prim::IncrBy(1))]); s.script = 2; s } else { step(Via::Generic, vec![(k, p)]) };
+                    if j == 0 { s.delay_ms = 40 + 10 * c as u64; }
+                    v.push(s);
+                }
+            }
+            scripts.push(vec![v]);
+        }
+    } else {
+        let per_client = (14 / nclients).clamp(1, 4);
+        if race { wave = true; }
+        let wave_len: Vec<usize> = (0..rounds).map(|_| rng.gen_range(1..=per_client)).collect();
+        scripts = (0..nclients).map(|c| {
+            (0..rounds).map(|r| {
+                let n = if wave { wave_len[r] } else { rng.gen_range(1..=per_client) };
+                (0..n).map(|_| gen_step(&mut rng, mode, &kinds, c, &mut serial, cfg.eval)).collect()
+            }).collect()
+        }).collect();
+        if race {
+            // ---- first-writer races on key 0: in a race wave every client issues the same
+            // conditional write (own value) at the same instant; in between, one client deletes
+            // the key while the others race again
+            for r in 0..rounds {
+                for j in 0..wave_len[r] {
+                    let c = rng.gen_range(0..100);
+                    if c < 15 { continue; } // leave the ordinary mix
+                    let which = rng.gen_range(0..6u32);
+                    let deleter = if c >= 60 { Some(rng.gen_range(0..nclients)) } else { None };
+                    for cl in 0..nclients {
+                        let p = if deleter == Some(cl) { if rng.gen_bool(0.7) { Prim::Del } else if kinds[0] == Kind::Str { Prim::GetDel } else { Prim::Del } } else { race_prim(&mut rng, kinds[0], which, cl, &mut serial) };
+                        scripts[cl][r][j] = step(Via::Generic, vec![(0, p)]);
+                    }
+                }
+            }
+        }
+    }
+
+    // ---- cancellation: saboteur scripts (seed-determined like the client scripts)
+    let sabotage = !slow && (nshards == 1 || cfg.mixed_multishard) && mode != Mode::FastOnly && rng.gen_range(0..100) < cfg.sab_pct;
+    let mut sabs: Vec<Vec<Vec<SabStep>>> = Vec::new();
+    let mut padding = 0usize;
+    if sabotage {
+        padding = rng.gen_range(72..=96);
+        let nsab = rng.gen_range(1..=2usize);
+        for sb in 0..nsab {
+            let mut per_round = Vec::new();
+            for _ in 0..rounds {
+                let attempts = rng.gen_range(6..=20usize);
+                let mut recorded = 0usize;
+                let mut v = Vec::new();
+                for _ in 0..attempts {
+                    let how = rng.gen_range(0..4u8);
+                    let c = rng.gen_range(0..100);
+                    if c < 25 && recorded < 2 {
+                        let mut st = gen_step(&mut rng, Mode::Mixed, &kinds, 90 + sb, &mut serial, cfg.eval);
+                        st.yield_before = false;
+                        if st.items.iter().any(|(_, p)| !is_read(p)) {
+                            recorded += 1;
+                        }
+                        v.push(SabStep { step: st, how, record: true });
+                    } else {
+                        // ghost requests: reads of shared keys / reads and writes of the junk key, mostly pooled
+                        let via = match rng.gen_range(0..10) { 0 => Via::Fast, 1 => Via::Generic, _ => Via::Pooled };
+                        let junk = rng.gen_bool(0.4);
+                        let k = if junk { nkeys } else { rng.gen_range(0..nkeys) };
+                        let p = if junk && rng.gen_bool(0.5) { serial += 1; Prim::Set(format!("junk{}", serial).into_bytes()) } else { Prim::Get };
+                        v.push(SabStep { step: step(via, vec![(k, p)]), how, record: false });
+                    }
+                }
+                per_round.push(v);
+            }
+            sabs.push(per_round);
+        }
+    }
+
+    let the_rt = if single_worker { rt1 } else { rt };
+    let run = match std::panic::catch_unwind(std::panic::AssertUnwindSafe(|| run_case(the_rt, nshards, &keys, &kinds, mode, &scripts, rounds, wave, &sabs, padding))) {
+        Ok(r) => r,
+        Err(_) => CaseRun { windows: vec![], panicked: Some("panic while driving the case".into()), abandoned: 0, abandoned_pooled: 0, completed_before_abandon: 0, padding_ops: 0, longest_ms: 0 },
+    };
+    let mut count = |s: String| co.counts.push(s);
+    count(format!("shards:{}", nshards));
+    count(format!("clients:{}", nclients));
+    count(format!("mode:{:?}", mode));
+    count(format!("class:{}", if slow { "slow-shard" } else if race { "first-writer-race" } else { "mix" }));
+    count((if wave { "release:wave" } else { "release:free" }).into());
+    count((if single_worker { "runtime:1-worker" } else { "runtime:multi-worker" }).into());
+    count((if sabotage { "sabotage:yes" } else { "sabotage:no" }).into());
+    for c in scripts.iter() { for r in c.iter() { for s in r.iter() { count(format!("via:{:?}", s.via)); for (_, p) in s.items.iter() { count(format!("prim:{}", prim_name(p))); } } } }
+    for (k, kd) in keys.iter().zip(kinds.iter()) {
+        count((if k.contains('{') || k.contains('}') { "keyshape:braces" } else if !k.is_ascii() { "keyshape:multibyte" } else if [7, 8, 9, 16, 17].contains(&k.len()) { "keyshape:block-boundary" } else { "keyshape:plain" }).into());
+        count(format!("keykind:{:?}", kd));
+    }
+    if slow {
+        count(format!("slow_target_s:{}", slow_secs));
+        count(format!("slow_longest_command:{}", match run.longest_ms { 0..=199 => "<0.2s", 200..=999 => "0.2-1s", 1000..=1999 => "1-2s", 2000..=3999 => "2-4s", _ => ">=4s" }));
+    }
+    if sabotage {
+        co.adds.push(("total_abandoned".into(), run.abandoned as u64));
+        co.adds.push(("total_abandoned_pooled".into(), run.abandoned_pooled as u64));
+        co.adds.push(("total_completed_before_abandon".into(), run.completed_before_abandon as u64));
+        co.adds.push(("total_padding_pooled_ops".into(), run.padding_ops as u64));
+        co.impl_checks += run.padding_ops as u64;
+        let pend: usize = run.windows.iter().map(|w| w.ops.iter().filter(|o| o.pending).count()).sum();
+        co.adds.push(("total_pending_ops_in_windows".into(), pend as u64));
+    }
+    if let Some(p) = &run.panicked {
+        co.violations.push(("a client task or the node panicked during a concurrent run".into(), json!({"panic": p, "shards": nshards, "clients": nclients})));
+    }
+    let mut terms = Vec::new();
+    let mut bad = Vec::new();
+    let mut overlaps = 0usize;
+    let mut maxlen = 0usize;
+    for w in run.windows.iter() {
+        let v = linearizable(w);
+        co.impl_checks += 1;
+        overlaps += overlap_pairs(w);
+        maxlen = maxlen.max(w.ops.len());
+        terms.push(window_term(w, v));
+        if !v {
+            bad.push(window_json(w, v));
+        }
+    }
+    if race {
+        // how many race waves had more than one "winner"-capable command overlapping
+        let contended = run.windows.iter().filter(|w| w.key == keys[0]).map(overlap_pairs).sum::<usize>();
+        co.counts.push(format!("race_overlap_on_key0:{}", match contended { 0 => "0", 1..=9 => "1-9", _ => "10+" }));
+    }
+    co.counts.push(format!("windows:{}", run.windows.len()));
+    co.counts.push(format!("max_window_ops:{}", match maxlen { 0..=5 => "<=5", 6..=10 => "6-10", 11..=15 => "11-15", 16..=25 => "16-25", _ => "26+" }));
+    co.counts.push((if overlaps > 0 { "overlap:yes" } else { "overlap:no" }).into());
+    co.counts.push(format!("overlapping_pairs:{}", match overlaps { 0 => "0", 1..=3 => "1-3", 4..=9 => "4-9", 10..=29 => "10-29", _ => "30+" }));
+    if !bad.is_empty() {
+        let wrong_shape = run.windows.iter().any(|w| !window_shapes_ok(w));
+        let what = if wrong_shape {
+            "a command was answered with a reply of a shape it cannot produce (an error the code does not document, or a reply that belongs to another request); per-key history not linearizable"
+        } else {
+            "per-key history of a concurrent run is not linearizable"
+        };
+        co.violations.push((what.into(), json!({
+            "shards": nshards, "clients": nclients, "mode": format!("{:?}", mode), "keys": keys,
+            "class": if slow { "slow-shard" } else if race { "first-writer-race" } else { "mix" },
+            "slow_target_seconds": slow_secs, "longest_command_ms": run.longest_ms,
+            "sabotage": sabotage, "abandoned_requests": run.abandoned, "abandoned_pooled_requests": run.abandoned_pooled,
+            "single_worker_runtime": single_worker,
+            "failing_windows": bad,
+            "note": "the schedule is not derived from the seed; this file holds the full failing window(s); ./check C02 --replay re-judges them in Coq (lin_check) and with the harness's search"})));
+    }
+    co.term = format!("K2 {}", clist(terms.iter(), |t| format!("({})", t)));
+    if cfg.only {
+        co.lines.push(format!("case {}: shards {} clients {} mode {:?} keys {:?} kinds {:?} rounds {} wave {} race {} slow {} ({} s, longest command {} ms) sabotage {} (abandoned {}, pooled {}) single-worker {}", i, nshards, nclients, mode, keys, kinds, rounds, wave, race, slow, slow_secs, run.longest_ms, sabotage, run.abandoned, run.abandoned_pooled, single_worker));
+        for (w, t) in run.windows.iter().zip(terms.iter()) {
+            co.lines.push(format!("  key {:?} round {} ({} ops, {} overlapping pairs): {}", w.key, w.round, w.ops.len(), overlap_pairs(w), t));
+        }
+    }
+    if i < 3 {
+        co.sample = Some(json!({"case": i, "shards": nshards, "clients": nclients, "mode": format!("{:?}", mode),
+                               "first_window": run.windows.first().map(|w| window_json(w, true))}));
+    }
+    co.nontrivial = overlaps > 0;
+    co.canon = terms.join(";");
+    co
+}
+
+/// Lua busy-loop speed (iterations per second) measured through the real node.
+fn calibrate(rt: &tokio::runtime::Runtime) -> f64 {
+    rt.block_on(async {
+        let state = ShardedActorState::with_shards(1);
+        let n = 30_000_000u64;
+        let cmd = Command::Eval { script: format!("{}return x", BUSY), keys: vec!["cal".into()], args: vec![SDS::new(n.to_string().into_bytes())] };
+        let _ = state.execute(&cmd).await; // warm up
+        let t0 = std::time::Instant::now();
+        let _ = state.execute(&cmd).await;
+        n as f64 / t0.elapsed().as_secs_f64().max(1e-6)
+    })
+}
+
+fn apply_out(out: &mut Out, co: CaseOut) {
+    for c in co.counts.iter() { out.count(c); }
+    for (k, n) in co.adds.iter() { *out.dist.entry(k.clone()).or_insert(0) += n; }
+    out.impl_checks += co.impl_checks;
+    for (what, d) in co.violations.iter() { out.violation(co.idx, what, d.clone()); }
+    for l in co.lines.iter() { println!("{}", l); }
+    if let Some(s) = co.sample { out.sample(s); }
+    out.case(co.idx, co.term, co.nontrivial, &co.canon);
+}
+
 fn main() {
     let a: Vec<String> = std::env::args().collect();
     let args = &Args::parse(&a[1..]);
     let mut out = Out::new(&args.out, "C02", args.shards, HEADER);
-    let max_clients = args.get("clients", 4) as usize;
-    let mixed_multishard = args.get("mixed", 0) == 1;
-    let eval = args.get("eval", 0) == 1;
-    let wide = args.get("wide", 0) == 1; // shard counts {1,2,4,16} instead of {1,4}
     let workers = args.get("workers", 4) as usize;
-    let sab_pct = args.get("sabotage", 35);
+    let mut cfg = Cfg {
+        max_clients: args.get("clients", 4) as usize,
+        mixed_multishard: args.get("mixed", 0) == 1,
+        eval: args.get("eval", 0) == 1,
+        wide: args.get("wide", 0) == 1,
+        sab_pct: args.get("sabotage", 30),
+        race_pct: args.get("race", 30),
+        slow_every: args.get("slow-every", 0),
+        slow_long: args.get("slow-long", 0) == 1,
+        iters_per_sec: 0.0,
+        only: args.only.is_some(),
+    };
     out.nontrivial_rule = format!(
-        "one case = one concurrent run of the real ShardedActorState on a {}-worker multi-thread tokio runtime: 2..{} client tasks, 2-4 rounds separated by barriers, <= 14 commands per round over 1-3 shared keys, {} shard counts, entry points execute / fast_* / pooled_fast_* / fast_batch_*_pipeline{}; mixed path classes on > 1 shard: {}; per round and key one window (<= 15 ops incl. the barrier read) judged by Coq lin_check and by the harness's own search; non-trivial = the case has at least one window in which two operations on the same key overlap in time; distinct by the printed histories. Thread scheduling is NOT derived from the seed: the client scripts of case i are (seed,i)-determined, the interleavings are explored, not replayable bit for bit; a failing window is stored in full in the replay file and re-judged by --replay. Key names: plain, hash-tag shapes ({{a}}, x{{a}}y, {{a}}:b, {{}}, unbalanced braces), multi-byte UTF-8, 7/8/9/16/17-byte names. CANCELLATION: in ~{}% of the cases 1-2 saboteur tasks run beside the clients and start pooled / fast / batch / generic / EVAL requests on the shared keys and on a junk key and abandon them mid-flight (future polled once then dropped, tokio::time::timeout(0), spawn + JoinHandle::abort); an abandoned request that writes enters the window as a PENDING operation (may take effect at any instant after its invocation, or never - the search tries every subset), abandoned reads are dropped; after the saboteurs of a round have finished, 72-96 pooled SET/GET of one sequential client on a padding key cycle the 64-slot response pool (every padding reply is determined exactly and checked); 20% of all cases run on a 1-worker runtime. A reply whose shape is impossible for its command (GET answered +OK, SET answered a bulk) is reported as such",
-        sab_pct, workers, max_clients, if wide { "{1,2,4,16}" } else { "{1,4}" }, if eval { " / EVAL scripts (GET+SET, INCR+GET on one key)" } else { "" },
-        if mixed_multishard { "enabled" } else { "disabled (one class per case) until the C03 routing repair lands" });
+        "one case = one concurrent run of the real ShardedActorState on a {}-worker (20-40% of cases: 1-worker) tokio runtime: 2..{} client tasks, 1-4 rounds separated by barriers, <= 14 commands per round over 1-3 shared keys (string / list / set / hash; names plain, hash-tag shapes, multi-byte UTF-8, 7/8/9/16/17 bytes), shard counts {}, entry points execute (GET, SET [NX|XX] [GET], SETNX, GETSET, GETDEL, INCR/DECR/INCRBY/DECRBY, APPEND, SETRANGE, DEL, EXISTS, LPUSH/RPUSH/LPOP/RPOP/LRANGE, SADD/SREM/SMEMBERS, HSET/HDEL/HGETALL{}) / fast_* / pooled_fast_* / fast_batch_*_pipeline; mixed path classes on > 1 shard: {}. Classes: ordinary mix; FIRST-WRITER RACE (~{}% of cases: in a wave all clients release the same conditional write - SETNX, SET NX [GET], GETSET, INCR, LPUSH, SADD of one member, HSET of one field - on key 0 at the same instant, interleaved with waves in which one client DELs / GETDELs the key while the others race again); CANCELLATION (~{}%: saboteur tasks abandon pooled / fast / batch / generic / EVAL requests mid-flight - poll once + drop, timeout(0), JoinHandle::abort; an abandoned write is a PENDING operation of its window, the search tries every subset; then 72-96 exactly-checked pooled requests cycle the 64-slot response pool); SLOW SHARD (every {}th case, run in parallel threads: a Lua busy loop calibrated to 0.3 / 1.6 / 3.2{} s occupies the shard of key 0 - alone, or followed by an INCR / GET / LPUSH, sometimes a second long script - while 2-4 other clients queue non-idempotent generic commands and INCR scripts on that key; a command applied twice, or answered with an error the code does not document, makes the window non-linearizable). Per round and key one window (incl. the barrier read of the whole value) judged by Coq lin_check and by the harness's own search; non-trivial = at least one window in which two operations on the same key overlap in time; distinct by the printed histories. Thread scheduling is NOT derived from the seed: the scripts of case i are (seed,i)-determined, the interleavings are explored, not replayable bit for bit; a failing window is stored in full in the replay file and re-judged by --replay",
+        workers, cfg.max_clients, if cfg.wide { "{1,2,4,16}" } else { "{1,4}" }, if cfg.eval { ", EVAL scripts GET+SET / INCR+GET / INCR" } else { "" },
+        if cfg.mixed_multishard { "enabled" } else { "disabled (one class per case)" }, cfg.race_pct, cfg.sab_pct, cfg.slow_every, if cfg.slow_long { " / 6" } else { "" });
     let rt = tokio::runtime::Builder::new_multi_thread().worker_threads(workers).enable_all().build().unwrap();
     // all tasks of a case on ONE worker thread: interleaving only at await points
     let rt1 = tokio::runtime::Builder::new_multi_thread().worker_threads(1).enable_all().build().unwrap();
 
     let range: Vec<u64> = match args.only { Some(i) => vec![i], None => (0..args.n).collect() };
+    // ---- replay of a recorded failing history
+    if let Some(i) = args.only {
+        let rec = recorded_windows(args.seed, i);
+        if !rec.is_empty() {
+            println!("re-judging {} recorded failing window(s) of seed {} case {} (the schedule itself is not replayable)", rec.len(), args.seed, i);
+            let mut terms = Vec::new();
+            let mut bad = Vec::new();
+            for w in rec.iter() {
+                let v = linearizable(w);
+                println!("  key {:?} round {}: harness verdict linearizable = {}", w.key, w.round, v);
+                println!("  {}", window_term(w, v));
+                terms.push(window_term(w, v));
+                if !v {
+                    bad.push(window_json(w, v));
+                }
+            }
+            out.impl_checks += rec.len() as u64;
+            if !bad.is_empty() {
+                out.violation(i, "recorded per-key history is not linearizable", json!({"failing_windows": bad}));
+            }
+            out.case(i, format!("K2 {}", clist(terms.iter(), |t| format!("({})", t))), true, &terms.join(";"));
+            out.finish(args.seed);
+            return;
+        }
+    }
+    let slow_idx: Vec<u64> = range.iter().cloned().filter(|i| is_slow(&cfg, *i)).collect();
+    if !slow_idx.is_empty() {
+        cfg.iters_per_sec = calibrate(&rt);
+        out.count(&format!("lua_busy_loop_Miters_per_s:{}", (cfg.iters_per_sec / 1e6).round()));
+    }
+    // slow-shard cases run beside the others, each in its own thread with its own runtime
+    let queue = Arc::new(std::sync::Mutex::new(slow_idx.clone()));
+    let results: Arc<std::sync::Mutex<Vec<CaseOut>>> = Arc::new(std::sync::Mutex::new(Vec::new()));
+    let nthreads = (args.get("slow-threads", 8) as usize).min(slow_idx.len());
+    let mut threads = Vec::new();
+    for _ in 0..nthreads {
+        let (queue, results, cfg, seed) = (queue.clone(), results.clone(), cfg.clone(), args.seed);
+        threads.push(std::thread::spawn(move || {
+            let rt = tokio::runtime::Builder::new_multi_thread().worker_threads(3).enable_all().build().unwrap();
+            let rt1 = tokio::runtime::Builder::new_multi_thread().worker_threads(1).enable_all().build().unwrap();
+            loop {
+                let next = queue.lock().unwrap().pop();
+                match next {
+                    Some(i) => { let co = do_case(seed, i, &cfg, &rt, &rt1); results.lock().unwrap().push(co); }
+                    None => break,
+                }
+            }
+        }));
+    }
     for i in range {
-        // ---- replay of a recorded failing history
-        if args.only.is_some() {
-            let rec = recorded_windows(args.seed, i);
-            if !rec.is_empty() {
-                println!("re-judging {} recorded failing window(s) of seed {} case {} (the schedule itself is not replayable)", rec.len(), args.seed, i);
-                let mut terms = Vec::new();
-                let mut bad = Vec::new();
-                for w in rec.iter() {
-                    let v = linearizable(w);
-                    println!("  key {:?} round {}: harness verdict linearizable = {}", w.key, w.round, v);
-                    println!("  {}", window_term(w, v));
-                    terms.push(window_term(w, v));
-                    if !v {
-                        bad.push(window_json(w, v));
-                    }
-                }
-                out.impl_checks += rec.len() as u64;
-                if !bad.is_empty() {
-                    out.violation(i, "recorded per-key history is not linearizable", json!({"failing_windows": bad}));
-                }
-                out.case(i, format!("K2 {}", clist(terms.iter(), |t| format!("({})", t))), true, &terms.join(";"));
-                continue;
-            }
+        if is_slow(&cfg, i) {
+            continue;
         }
-        let mut rng = case_rng(args.seed, i);
-        let shard_set: &[usize] = if wide { &[1, 2, 4, 16] } else { &[1, 4] };
-        let nshards = shard_set[rng.gen_range(0..shard_set.len())];
-        let nclients = if max_clients <= 4 { rng.gen_range(2..=max_clients.max(2)) } else { rng.gen_range(2..=max_clients) };
-        let nkeys = rng.gen_range(1..=3usize);
-        let rounds = rng.gen_range(2..=4usize);
-        let mode = if nshards == 1 || mixed_multishard {
-            match rng.gen_range(0..10) { 0 => Mode::GenericOnly, 1 => Mode::FastOnly, _ => Mode::Mixed }
-        } else if rng.gen_bool(0.5) { Mode::GenericOnly } else { Mode::FastOnly };
-        let mut pool: Vec<&str> = KEYPOOL.to_vec();
-        let mut keys: Vec<String> = Vec::new();
-        for _ in 0..nkeys {
-            let j = rng.gen_range(0..pool.len());
-            keys.push(pool.remove(j).to_string());
-        }
-        let per_round_total = 14usize;
-        let per_client = (per_round_total / nclients).clamp(1, 4);
-        let mut serial = 0u64;
-        // wave mode: every client issues the same number of commands per round and the j-th
-        // commands of all clients are released together by a barrier (maximal overlap)
-        let wave = rng.gen_bool(0.7);
-        let wave_len: Vec<usize> = (0..rounds).map(|_| rng.gen_range(1..=per_client)).collect();
-        let scripts: Vec<Vec<Vec<Step>>> = (0..nclients).map(|c| {
-            (0..rounds).map(|r| {
-                let n = if wave { wave_len[r] } else { rng.gen_range(1..=per_client) };
-                // a batch counts once per key it touches; keep the round total <= 14 per key
-                (0..n).map(|_| gen_step(&mut rng, mode, nkeys, c, &mut serial, eval)).collect()
-            }).collect()
-        }).collect();
-
-        // ---- cancellation: saboteur scripts (seed-determined like the client scripts)
-        let single_worker = rng.gen_bool(0.2);
-        let sabotage = (nshards == 1 || mixed_multishard) && rng.gen_range(0..100) < sab_pct;
-        let mut sabs: Vec<Vec<Vec<SabStep>>> = Vec::new();
-        let mut padding = 0usize;
-        if sabotage {
-            padding = rng.gen_range(72..=96);
-            let nsab = rng.gen_range(1..=2usize);
-            for sb in 0..nsab {
-                let mut per_round = Vec::new();
-                for _ in 0..rounds {
-                    let attempts = rng.gen_range(6..=20usize);
-                    let mut recorded = 0usize;
-                    let mut v = Vec::new();
-                    for _ in 0..attempts {
-                        let how = rng.gen_range(0..4u8);
-                        let c = rng.gen_range(0..100);
-                        if c < 25 && recorded < 2 {
-                            // any command of the case's repertoire on a shared key; pending if it writes
-                            let mut st = gen_step(&mut rng, Mode::Mixed, nkeys, 90 + sb, &mut serial, eval);
-                            st.yield_before = false;
-                            if st.items.iter().any(|(_, p)| !matches!(p, Prim::Get)) {
-                                recorded += 1;
-                            }
-                            v.push(SabStep { step: st, how, record: true });
-                        } else {
-                            // ghost requests: reads of shared keys / reads and writes of the junk key, mostly pooled
-                            let via = match rng.gen_range(0..10) { 0 => Via::Fast, 1 => Via::Generic, _ => Via::Pooled };
-                            let junk = rng.gen_bool(0.4);
-                            let k = if junk { nkeys } else { rng.gen_range(0..nkeys) };
-                            let p = if junk && rng.gen_bool(0.5) { serial += 1; Prim::Set(format!("junk{}", serial).into_bytes()) } else { Prim::Get };
-                            v.push(SabStep { step: Step { via, items: vec![(k, p)], script: 0, yield_before: false }, how, record: false });
-                        }
-                    }
-                    per_round.push(v);
-                }
-                sabs.push(per_round);
-            }
-        }
-
-        let the_rt = if single_worker { &rt1 } else { &rt };
-        let run = match std::panic::catch_unwind(std::panic::AssertUnwindSafe(|| run_case(the_rt, nshards, &keys, mode, &scripts, rounds, wave, &sabs, padding))) {
-            Ok(r) => r,
-            Err(_) => CaseRun { windows: vec![], panicked: Some("panic while driving the case".into()), abandoned: 0, abandoned_pooled: 0, completed_before_abandon: 0, padding_ops: 0 },
-        };
-        out.count(if single_worker { "runtime:1-worker" } else { "runtime:multi-worker" });
-        out.count(if sabotage { "sabotage:yes" } else { "sabotage:no" });
-        if sabotage {
-            out.count(&format!("abandoned_requests:{}", match run.abandoned { 0 => "0", 1..=9 => "1-9", 10..=29 => "10-29", 30..=59 => "30-59", _ => "60+" }));
-            out.count(&format!("abandoned_pooled:{}", match run.abandoned_pooled { 0 => "0", 1..=9 => "1-9", 10..=29 => "10-29", _ => "30+" }));
-            *out.dist.entry("total_abandoned".into()).or_insert(0) += run.abandoned as u64;
-            *out.dist.entry("total_abandoned_pooled".into()).or_insert(0) += run.abandoned_pooled as u64;
-            *out.dist.entry("total_completed_before_abandon".into()).or_insert(0) += run.completed_before_abandon as u64;
-            *out.dist.entry("total_padding_pooled_ops".into()).or_insert(0) += run.padding_ops as u64;
-            out.impl_checks += run.padding_ops as u64;
-            let pend: usize = run.windows.iter().map(|w| w.ops.iter().filter(|o| o.pending).count()).sum();
-            *out.dist.entry("total_pending_ops_in_windows".into()).or_insert(0) += pend as u64;
-        }
-        for k in keys.iter() {
-            out.count(if k.contains('{') || k.contains('}') { "keyshape:braces" } else if !k.is_ascii() { "keyshape:multibyte" } else if [7, 8, 9, 16, 17].contains(&k.len()) { "keyshape:block-boundary" } else { "keyshape:plain" });
-        }
-        out.count(&format!("shards:{}", nshards));
-        out.count(&format!("clients:{}", nclients));
-        out.count(&format!("mode:{:?}", mode));
-        out.count(if wave { "release:wave" } else { "release:free" });
-        for c in scripts.iter() { for r in c.iter() { for s in r.iter() { out.count(&format!("via:{:?}", s.via)); for (_, p) in s.items.iter() { out.count(&format!("prim:{}", match p { Prim::Get => "GET", Prim::Set(_) => "SET", Prim::Incr => "INCR", Prim::Append(_) => "APPEND", Prim::Del => "DEL" })); } } } }
-        if let Some(p) = &run.panicked {
-            out.violation(i, "a client task or the node panicked during a concurrent run", json!({"panic": p, "shards": nshards, "clients": nclients}));
-        }
-        let mut terms = Vec::new();
-        let mut bad = Vec::new();
-        let mut overlaps = 0usize;
-        let mut maxlen = 0usize;
-        for w in run.windows.iter() {
-            let v = linearizable(w);
-            out.impl_checks += 1;
-            overlaps += overlap_pairs(w);
-            maxlen = maxlen.max(w.ops.len());
-            terms.push(window_term(w, v));
-            if !v {
-                bad.push(window_json(w, v));
-            }
-        }
-        out.count(&format!("windows:{}", run.windows.len()));
-        out.count(&format!("max_window_ops:{}", maxlen));
-        out.count(if overlaps > 0 { "overlap:yes" } else { "overlap:no" });
-        out.count(&format!("overlapping_pairs:{}", match overlaps { 0 => "0", 1..=3 => "1-3", 4..=9 => "4-9", 10..=29 => "10-29", _ => "30+" }));
-        if !bad.is_empty() {
-            let wrong_shape = run.windows.iter().any(|w| !window_shapes_ok(w));
-            let what = if wrong_shape {
-                "a command was answered with a reply of a shape it cannot produce (a reply that belongs to another request); per-key history not linearizable"
-            } else {
-                "per-key history of a concurrent run is not linearizable"
-            };
-            out.violation(i, what, json!({
-                "shards": nshards, "clients": nclients, "mode": format!("{:?}", mode), "keys": keys,
-                "sabotage": sabotage, "abandoned_requests": run.abandoned, "abandoned_pooled_requests": run.abandoned_pooled,
-                "single_worker_runtime": single_worker,
-                "failing_windows": bad,
-                "note": "the schedule is not derived from the seed; this file holds the full failing window(s); ./check C02 --replay re-judges them in Coq (lin_check) and with the harness's search"}));
-        }
-        let term = format!("K2 {}", clist(terms.iter(), |t| format!("({})", t)));
-        if args.only.is_some() {
-            println!("case {}: shards {} clients {} mode {:?} keys {:?} rounds {} wave {} sabotage {} (abandoned {}, pooled {}) single-worker {}", i, nshards, nclients, mode, keys, rounds, wave, sabotage, run.abandoned, run.abandoned_pooled, single_worker);
-            for (w, t) in run.windows.iter().zip(terms.iter()) {
-                println!("  key {:?} round {} ({} ops, {} overlapping pairs): {}", w.key, w.round, w.ops.len(), overlap_pairs(w), t);
-            }
-        }
-        if i < 3 {
-            out.sample(json!({"case": i, "shards": nshards, "clients": nclients, "mode": format!("{:?}", mode),
-                              "first_window": run.windows.first().map(|w| window_json(w, true))}));
-        }
-        out.case(i, term, overlaps > 0, &terms.join(";"));
+        let co = do_case(args.seed, i, &cfg, &rt, &rt1);
+        apply_out(&mut out, co);
+    }
+    for t in threads {
+        let _ = t.join();
+    }
+    let mut rs = std::mem::take(&mut *results.lock().unwrap());
+    rs.sort_by_key(|c| c.idx);
+    for co in rs {
+        apply_out(&mut out, co);
     }
     out.finish(args.seed);
 }
